@@ -325,11 +325,11 @@ def _usable(n):
 def shards(tier, seed):
     s = []
     for i, e in enumerate(entries()):
-        s.append({'kind': 'random', 'entry': e, 'i': i, 'n': 120 if tier == 'thorough' else 14})
+        s.append({'kind': 'random', 'entry': e, 'i': i, 'n': 120 if tier == 'thorough' else 30})
         if tier == 'thorough':
             s.append({'kind': 'targets', 'entry': e, 'i': i, 'per_node': 3})
     for i in range(8):
-        s.append({'kind': 'mixed', 'i': 100 + i, 'n': 60 if tier == 'thorough' else 10})
+        s.append({'kind': 'mixed', 'i': 100 + i, 'n': 60 if tier == 'thorough' else 20})
     return s
 
 
